@@ -434,7 +434,7 @@ def run(ctx: Ctx) -> int:
     mods = hostrun.load_actuators()
     rng = ctx.rng
     cases = list(CORPUS)
-    for i in range(ctx.n(80, 1200)):
+    for i in range(ctx.n(240, 1200)):
         kind = ["led", "rgb", "servo", "motor"][i % 4]
         wild = rng.random() < 0.3
         if kind == "servo":
